@@ -86,7 +86,7 @@ func (c *Ctx) directiveConstructors() map[*types.Func]bool {
 
 // RuleB2: a banned kind is refused where directives are created and before files are touched.
 func RuleB2(c *Ctx) {
-	sc := c.Run.Begin("B2", "every creation of a directive (the only call sites of the directive constructors outside their package) is dominated by a bannedDirectives lookup on the created kind whose found branch cannot reach it, and every file-system call is reachable only after a bannedDirectives lookup on the INCLUDE kind", 3)
+	sc := c.Run.Begin("B2", "every creation of a directive (the only call sites of the directive constructors outside their package) is dominated by a bannedDirectives lookup on the created kind whose found branch cannot reach it, and every file-system call is reachable only after a bannedDirectives lookup on the INCLUDE kind", 2)
 	defer sc.End()
 	banned := c.Field("core", "JApiCore", "bannedDirectives")
 	ctors := c.directiveConstructors()
